@@ -214,3 +214,38 @@ pub mod choice {
         }
     }
 }
+
+pub mod signal {
+    //! Stand-in for `nix::sys::signal` in the admin SHUTDOWN command: the
+    //! harness receives the SIGINT the pooler sends to itself.
+    use std::sync::Mutex;
+
+    #[allow(clippy::upper_case_acronyms)]
+    #[derive(Clone, Copy, Debug, PartialEq, Eq)]
+    pub enum Signal {
+        SIGINT,
+        SIGTERM,
+        SIGHUP,
+    }
+
+    pub type Handler = Box<dyn FnMut(Signal) -> bool + Send>;
+
+    static HANDLER: Mutex<Option<Handler>> = Mutex::new(None);
+
+    pub fn set_handler(h: Handler) {
+        *HANDLER.lock().unwrap() = Some(h);
+    }
+
+    /// Deliver `sig` to the harness; `Err` when nothing is listening.
+    pub fn kill<P>(_pid: P, sig: Signal) -> Result<(), ()> {
+        let delivered = match HANDLER.lock().unwrap().as_mut() {
+            Some(h) => h(sig),
+            None => false,
+        };
+        if delivered {
+            Ok(())
+        } else {
+            Err(())
+        }
+    }
+}
